@@ -103,7 +103,18 @@ def run_functions(keys, tier, extra=None, procs=None):
             with ctx.Pool(min(procs, len(todo))) as pool:
                 for i, rec in pool.imap_unordered(_discharge, todo, chunksize=1):
                     done[i] = rec
-    from . import verify
+    from . import verify, smt
+    # an `unknown` may be a time-out under load: retry alone, one after the other, with a 6x budget,
+    # before anything is made of it
+    retry = [i for i in todo if done[i]['status'] == 'unknown']
+    if retry and len(retry) <= 6:
+        for i in retry:
+            fi, ob, t = _OBS[i]
+            ob.status = None
+            smt.discharge(ob, 'retry')
+            rec = verify.obligation_record(ob)
+            rec['retried'] = True
+            done[i] = rec
     for i, (fi, ob, t) in enumerate(_OBS):
         recs[fi].append(done[i] if i in done else verify.obligation_record(ob))
     out = []
@@ -262,6 +273,11 @@ def check_property(pid, tier='quick', seed=0):
     print('%s: functions=%d obligations=%d discharged=%d known-findings=%d violations=%d undecided=%d errors=%d wall=%.1fs'
           % (pid, len(keys), total, discharged, len(known_lines), len(violations),
              len(undecided) + len(undecided_funcs), len(errors), wall))
+    if os.environ.get('PYVC_WRITE_BASELINE') and not errors and not violations:
+        os.makedirs(os.path.join(HERE, 'baseline'), exist_ok=True)
+        names = sorted(set(norm_name(o['name']) for r in results for o in r['obligations'] if o['status'] in ('proved', 'trivial')))
+        with open(os.path.join(HERE, 'baseline', pid + '.json'), 'w') as f:
+            json.dump(names, f, indent=0)
     if errors:
         return 3
     if violations:
@@ -291,6 +307,18 @@ def confirm_known(kf, grp, tier):
     return True, ''
 
 
+def norm_name(name):
+    # line numbers move under harmless edits: compare obligation names without them
+    return re.sub(r'@\d+', '@', name)
+
+
+def load_baseline(pid):
+    p = os.path.join(HERE, 'baseline', pid + '.json')
+    if not os.path.exists(p):
+        return None
+    return set(norm_name(n) for n in json.load(open(p)))
+
+
 def classify_failure(pid, r, o, tier, replay_dir):
     """A non-discharged obligation is not yet a violation: look for a counter-model
     (the solver's own, or one from the finite-scope generator), write the replay file,
@@ -316,6 +344,14 @@ def classify_failure(pid, r, o, tier, replay_dir):
             with open(os.path.join(HERE, path), 'w') as f:
                 json.dump(info, f, indent=1)
             return 'undecided', path
+    base = load_baseline(pid)
+    if o['status'] == 'unknown' and base is not None and norm_name(o['name']) not in base:
+        # neither refuted nor an obligation that is on record as proved on the unchanged tree: no alarm
+        info['verdict'] = 'undecided'
+        info['counter_model'] = model
+        with open(os.path.join(HERE, path) if not os.path.isabs(path) else path, 'w') as f:
+            json.dump(info, f, indent=1)
+        return 'undecided', path
     info['counter_model'] = model
     native = refute.native_replay_model(pid, r['key'], o, model)
     info['native'] = native
